@@ -707,3 +707,17 @@ Proof.
   destruct (sm_out s uni I) as ((n & K & B & Io) & _ & _).
   eapply out_no_lost_wakeup_inv; eauto using first_outgoing_range.
 Qed.
+
+(** * 0-RTT rejection: the maps start over *)
+Theorem sm_reset_restarts : forall s s' r fr, tstep s OReset = (s', r, fr) ->
+  s_ob s' = init_out false (s_client s) /\ s_ou s' = init_out true (s_client s) /\
+  s_ib s' = init_in false (s_client s) (s_maxBidi s) /\ s_iu s' = init_in true (s_client s) (s_maxUni s) /\
+  s_rsaIDs s' = [] /\ fr = [].
+Proof. intros s s' r fr E. cbn in E. inj3 E. subst s' fr. cbn. repeat split; reflexivity. Qed.
+
+(** ... and until UseResetMaps the application's calls fail with Err0RTTRejected without touching them *)
+Theorem sm_reset_blocks_api : forall s uni w c a, s_reset s = true ->
+  tstep s (OOpen uni) = (s, RErr Err0RTT, []) /\
+  tstep s (OSyncCall uni w c) = (s, RErr Err0RTT, []) /\
+  tstep s (OAcceptCall uni a) = (s, RErr Err0RTT, []).
+Proof. intros s uni w c a H. unfold tstep; cbn [tstep_core]. rewrite H. cbn. repeat split; reflexivity. Qed.
